@@ -722,3 +722,12 @@ impl Default for Context {
         }
     }
 }
+
+#[cfg(feature = "verif")]
+pub(crate) mod verif_hooks {
+    use super::*;
+
+    pub fn context(core: &Core) -> Arc<Context> {
+        core.context.clone()
+    }
+}
